@@ -9,7 +9,8 @@ VARIABLES hist, init0
 gvars == <<vars, hist, init0>>
 
 Node(s, p) == LET nd == s.ns[p] IN
-  [k |-> nd.k, to |-> nd.to, ino |-> nd.ino, c |-> IF nd.k = "file" THEN s.data[nd.ino] ELSE <<>>]
+  [k |-> nd.k, to |-> nd.to, ino |-> nd.ino, c |-> IF nd.k = "file" THEN s.data[nd.ino] ELSE <<>>,
+   perm |-> IF nd.k = "file" THEN s.perm[nd.ino] ELSE 0]
 Snap(s) == [ns |-> [p \in Paths |-> Node(s, p)],
             fd |-> [open |-> s.fd.open, rd |-> s.fd.rd, wr |-> s.fd.wr, app |-> s.fd.app],
             fc |-> IF s.fd.open THEN s.data[s.fd.ino] ELSE <<>>,       \* content behind the open handle
